@@ -818,7 +818,8 @@ func c14PropsDecode(c *c14ctx) {
 	}
 	// known deviations compose: re-read the text the way the defective reader does, then rebuild
 	crlfCont := st.CRLF && c.tags["props:line_continuation"]
-	if glob || surrogate || crlfCont {
+	// (a key with `*` / `?` used to be decoded as a pattern over its earlier siblings: repaired in /repo, no longer excused)
+	if surrogate || crlfCont {
 		qtext := text
 		if crlfCont {
 			qtext = c14DropBackslashCR(text)
@@ -831,12 +832,9 @@ func c14PropsDecode(c *c14ctx) {
 				}
 			}
 			// (a continuation fragment read as an entry of its own may itself be a glob key)
-			if qv, err := c14PropsBuild(qr, glob || crlfCont); err == nil && ref.Equal(got, qv) {
+			if qv, err := c14PropsBuild(qr, false); err == nil && ref.Equal(got, qv) {
 				id := "C14-props-crlf-continuation"
-				switch {
-				case glob:
-					id = "C14-decode-key-glob"
-				case surrogate:
+				if surrogate {
 					id = "C14-props-surrogate-escape"
 				}
 				c.finding(id, "known reader defects (glob key=%v, surrogate escapes=%v, CR LF continuation=%v) explain the result exactly\nexpected: %s\ngot:      %s\ntext: %q",
